@@ -69,7 +69,7 @@ class ChannelCheck(PropCheck):
             sprobs = [l[8:] for l in stress if l.startswith("PROBLEM ")]
             if p.returncode != 0 and not sprobs:
                 sprobs = ["stress run died with exit status %d" % p.returncode]
-            want = {"C06": ("reordered", "duplicated", "leaked"), "C07": ("dropped twice", "leaked"), "C08": ("panicked", "died")}[self.pid]
+            want = {"C06": ("reordered", "duplicated", "leaked"), "C07": ("dropped twice", "leaked"), "C08": ("panicked", "died"), "C03": ("panicked", "died")}[self.pid]
             mine = [x for x in sprobs if any(w in x for w in want)]
             if mine:
                 failures.append({"kind": "violation", "key": self.pid + ":stress",
@@ -135,3 +135,4 @@ class C07(ChannelCheck):
 class C08(ChannelCheck):
     pid = "C08"
     prop_module = "SigHook.Props.C08"
+    extra_modules = ("SigHook.Props.Packed", "SigHook.Props.C08b")
